@@ -121,6 +121,21 @@ class NormTok:
         return SReal(self.term * rv(o))
 
 
+def _clamp_min(self, eps):
+    fl = rv(eps)
+    t = rv(self)
+    return SReal(z3.If(t >= fl, t, fl))
+
+
+# torch method names on scalar terms (a column of the output): a rewritten log / floor placement stays executable
+SReal.clamp_min = _clamp_min
+SReal.log = lambda self: SReal(c02.LOG(rv(self)))
+SReal.square = lambda self: SReal(rv(self) * rv(self))
+NormTok.clamp_min = lambda self, eps: _clamp_min(SReal(self.term), eps)
+NormTok.log = lambda self: SReal(c02.LOG(self.term))
+NormTok.__rmul__ = lambda self, o: SReal(self.term * rv(o))
+
+
 def _as_real(v):
     if isinstance(v, NormTok):
         return SReal(v.term)
@@ -465,6 +480,10 @@ def run_flow(cfg):
 # ------------------------------------------------------------------ wrappers
 
 def run_wrappers(cfg):
+    """PyTorchPostProcessorWrapper._postprocessor_appy and PyTorchSIFrameComputer._compute_full on a tensor stub whose
+    element count, rank and extents are symbolic (decisions forked by the solver): on EVERY path the result must be
+    torch.tensor(<numpy routine>(sig.cpu().numpy()), device=sig.device, dtype=sig.dtype) -- in particular also for an
+    empty tensor, whose post-processed shape is the post-processor's business."""
     ns = loader.load_unit('torch', name='pydrobert.speech.torch')
     log = []
 
@@ -480,8 +499,38 @@ def run_wrappers(cfg):
     class Sig:
         device = Dev()
         dtype = 'float32'
+        is_cuda = False
+
+        def __init__(self):
+            self.n0 = SInt(z3.Int('rows'))
+            self.n1 = SInt(z3.Int('cols'))
+            Ctx.cur.assume(z3.Int('rows') >= 0, z3.Int('cols') >= 0)
+
+        @property
+        def shape(self):
+            return (self.n0, self.n1)
+
+        def size(self, d=None):
+            return self.shape if d is None else self.shape[d]
+
+        def numel(self):
+            return self.n0 * self.n1
+
+        def nelement(self):
+            return self.numel()
+
+        def dim(self):
+            return 2
+
+        ndim = 2
+
+        def __len__(self):
+            return self.n0.__index__()
 
         def cpu(self):
+            return self
+
+        def detach(self):
             return self
 
         def numpy(self):
@@ -498,28 +547,47 @@ def run_wrappers(cfg):
             return 'FULL(%s)' % a
     ns['torch'] = FakeTorch
     viol = []
-    ob = 2
+    ob = dis = 0
     Wp = ns['PyTorchPostProcessorWrapper']
-    w = Wp.__new__(Wp)
-    object.__setattr__(w, 'postprocessor', Post())
-    w.__dict__['postprocessor'] = Post()
-    sig = Sig()
-    try:
-        r = Wp._postprocessor_appy(w, sig)
-        if r != ('T', 'APPLY(NUMPY(sig))', sig.device, 'float32'):
-            viol.append(dict(kind='wrappers', what='PostProcessor wrapper result %r' % (r,), **{'class': 'wrappers/post'}))
-    except Exception as e:
-        viol.append(dict(kind='wrappers', what='PostProcessor wrapper raised %s: %s' % (type(e).__name__, e), **{'class': 'wrappers/post'}))
     Ws = ns['PyTorchShortIntegrationFrameComputer']
-    w2 = Ws.__new__(Ws)
-    w2.__dict__['si_frame_computer'] = SI()
-    try:
-        r = Ws._compute_full(w2, sig)
-        if r != ('T', 'FULL(NUMPY(sig))', sig.device, 'float32'):
-            viol.append(dict(kind='wrappers', what='SI wrapper result %r' % (r,), **{'class': 'wrappers/si'}))
-    except Exception as e:
-        viol.append(dict(kind='wrappers', what='SI wrapper raised %s: %s' % (type(e).__name__, e), **{'class': 'wrappers/si'}))
-    return dict(obligations=ob, discharged=ob - len(viol), violations=viol, samples=[{'config': 'wrappers', 'log': [str(x)[:80] for x in log]}], twin=True)
+
+    def body(which):
+        def f():
+            sig = Sig()
+            try:
+                if which == 'post':
+                    w = Wp.__new__(Wp)
+                    w.__dict__['postprocessor'] = Post()
+                    r = Wp._postprocessor_appy(w, sig)
+                    want = ('T', 'APPLY(NUMPY(sig))', sig.device, 'float32')
+                else:
+                    w2 = Ws.__new__(Ws)
+                    w2.__dict__['si_frame_computer'] = SI()
+                    r = Ws._compute_full(w2, sig)
+                    want = ('T', 'FULL(NUMPY(sig))', sig.device, 'float32')
+            except Exception as e:
+                symex.guard(e)
+                return ('raised %s: %s' % (type(e).__name__, e),)
+            if r is sig:
+                return ('returned its input unprocessed',)
+            if r != want:
+                return ('result %r' % (r,),)
+            return None
+        return f
+
+    for which in ('post', 'si'):
+        for ctx, res in explore(body(which), max_paths=64):
+            if ctx.aborted:
+                continue
+            ob += 1
+            if res is None:
+                dis += 1
+                continue
+            m = ctx.model()
+            rows, cols = m.eval(z3.Int('rows'), True).as_long(), m.eval(z3.Int('cols'), True).as_long()
+            viol.append(dict(kind='wrappers', which=which, rows=rows, cols=cols, what='%s wrapper %s (input of shape (%d, %d))' % (which, res[0][:120], rows, cols),
+                             **{'class': 'wrappers/%s/%s' % (which, 'empty' if rows * cols == 0 else 'nonempty')}))
+    return dict(obligations=ob, discharged=dis, violations=viol, samples=[{'config': 'wrappers', 'log': [str(x)[:80] for x in log[:4]]}], twin=dis > 0)
 
 
 def run_params(cfg):
@@ -593,6 +661,47 @@ def run_config(cfg):
 
 # ------------------------------------------------------------------ replay on real torch / numpy
 
+def _replay_wrappers(w):
+    """the real wrappers on real torch against the NumPy routines, with the witness shape (empty or not)"""
+    import warnings
+    import numpy as np
+    import torch
+    from pydrobert.speech.post import Deltas, Stack, Standardize
+    from pydrobert.speech.torch import PyTorchPostProcessorWrapper, PyTorchSIFrameComputer
+    from pydrobert.speech.compute import SIFrameComputer
+    from pydrobert.speech.filters import GaborFilterBank
+    rng = np.random.RandomState(14)
+    rows, cols = w.get('rows', 3), max(w.get('cols', 4), 1)
+    shapes = [(rows, cols), (0, cols), (7, cols)]
+    try:
+        with warnings.catch_warnings():
+            warnings.simplefilter('ignore')
+            if w.get('which', 'post') == 'post':
+                for shp in shapes:
+                    for post in (Deltas(2), Deltas(1, concatenate=False), Stack(3), Standardize(norm_var=False)):
+                        for dt in (np.float32, np.float64):
+                            x = rng.randn(*shp).astype(dt)
+                            try:
+                                want = post.apply(x)
+                            except Exception:
+                                continue
+                            got = PyTorchPostProcessorWrapper(post)(torch.tensor(x)).numpy()
+                            if got.shape != want.shape or not np.allclose(got, want.astype(dt), atol=1e-5):
+                                return {'reproduced': True, 'detail': 'PyTorchPostProcessorWrapper(%s) on a %s tensor of shape %s gives shape %s; %s.apply gives %s' % (
+                                    type(post).__name__, np.dtype(dt).name, shp, got.shape, type(post).__name__, want.shape)}
+            else:
+                si = SIFrameComputer(GaborFilterBank('mel', num_filts=4, sampling_rate=8000), frame_shift_ms=2)
+                for n in (rows * cols, 0, 100):
+                    x = rng.randn(n)
+                    want = si.compute_full(x)
+                    got = PyTorchSIFrameComputer(si)(torch.tensor(x)).numpy()
+                    if got.shape != want.shape or not np.allclose(got, want, atol=1e-6):
+                        return {'reproduced': True, 'detail': 'PyTorchSIFrameComputer on %d samples gives shape %s; compute_full gives %s' % (n, got.shape, want.shape)}
+    except Exception as e:
+        return {'reproduced': True, 'detail': 'real wrapper raised %s: %s' % (type(e).__name__, e)}
+    return {'reproduced': False, 'detail': 'real wrappers equal the NumPy routines'}
+
+
 def replay(w):
     import numpy as np
     import torch
@@ -601,7 +710,7 @@ def replay(w):
     rng = np.random.RandomState(8)
     k = w['kind']
     if k == 'wrappers':
-        return {'reproduced': True, 'detail': w['what']}
+        return _replay_wrappers(w)
     if k == 'params':
         # a complex bank that is not analytic (support reaches below 0 Hz): Gabor at low_hz = 20
         from pydrobert.speech.filters import GaborFilterBank, TriangularOverlappingFilterBank
